@@ -41,6 +41,9 @@ def run(ctx):
     ctx.step(noblock, ctx)
     ctx.step(writer, ctx)
     # the writer's waits end only if every registration is given back exactly once
+    from . import c03
+    ctx.step(c03.reader_rules, ctx, "C14.reader")
+    ctx.step(c03.deleter_rules, ctx, "C14.release")
     ctx.step(common.raii_token_moves, ctx, "C14.balance", ["lr_guarded.hpp", "cow_guarded.hpp", "rcu_list.hpp", "rcu_guarded.hpp"])
 
 
